@@ -1702,7 +1702,31 @@ def _put_one_arg(
     if code.a.annotation.__class__ is Starred:
         raise NodeError(f'cannot put arg with Starred annotation to {self.a.__class__.__name__}.{field}')
 
+    if code.a.annotation and (parent := self.parent) and parent.a.__class__ is Lambda:
+        raise NodeError(f'cannot put arg with annotation to Lambda {self.a.__class__.__name__}.{field}')
+
     return _put_one_exprlike_required(self, code, idx, field, child, static, options, 2)
+
+
+def _put_one_arguments_vararg_kwarg(
+    self: fst.FST,
+    code: _PutOneCode,
+    idx: int | None,
+    field: str,
+    child: _Child,
+    static: onestatic,
+    options: Mapping[str, Any],
+) -> fst.FST:
+    """Don't allow arg with annotation into `Lambda` arguments."""
+
+    if code is not None and (parent := self.parent) and parent.a.__class__ is Lambda:
+        code = static.code_as(code, options, self.root._parse_params, strip=True,
+                              coerce=fst.FST.get_option('coerce', options))
+
+        if code.a.annotation:
+            raise NodeError(f'cannot put arg with annotation to Lambda {self.a.__class__.__name__}.{field}')
+
+    return _put_one_exprlike_optional(self, code, idx, field, child, static, options)
 
 
 @pyver(ge=11, else_=_put_one_exprlike_optional)  # _put_one_exprlike_optional leaves the _restrict_default in the static which disallows Starred
@@ -1716,6 +1740,9 @@ def _put_one_arg_annotation(
     options: Mapping[str, Any],
 ) -> fst.FST:
     """Allow Starred in vararg arg annotation in py 3.11+."""
+
+    if code is not None and (parent := self.parent) and (parent := parent.parent) and parent.a.__class__ is Lambda:
+        raise NodeError('cannot put annotation to Lambda arg')
 
     if not self.parent or self.pfield.name == 'vararg':
         static = onestatic(_one_info_arg_annotation, _restrict_fmtval_slice)
@@ -2948,10 +2975,10 @@ _PUT_ONE_HANDLERS = {
     (arguments, 'posonlyargs'):           (False, _put_one_arg, _onestatic_arg_required),  # arg*
     (arguments, 'args'):                  (False, _put_one_arg, _onestatic_arg_required),  # arg*
     (arguments, 'defaults'):              (False, _put_one_exprlike_required, _onestatic_expr_required),  # expr*
-    (arguments, 'vararg'):                (False, _put_one_exprlike_optional, onestatic(_one_info_arguments_vararg, _restrict_default, code_as=code_as_arg)),  # arg?
+    (arguments, 'vararg'):                (False, _put_one_arguments_vararg_kwarg, onestatic(_one_info_arguments_vararg, _restrict_default, code_as=code_as_arg)),  # arg?
     (arguments, 'kwonlyargs'):            (False, _put_one_arg, _onestatic_arg_required),  # arg*
     (arguments, 'kw_defaults'):           (False, _put_one_exprlike_optional, onestatic(_one_info_arguments_kw_defaults, _restrict_default)),  # expr*
-    (arguments, 'kwarg'):                 (False, _put_one_exprlike_optional, onestatic(_one_info_arguments_kwarg, _restrict_default, code_as=code_as_arg)),  # arg?
+    (arguments, 'kwarg'):                 (False, _put_one_arguments_vararg_kwarg, onestatic(_one_info_arguments_kwarg, _restrict_default, code_as=code_as_arg)),  # arg?
     (arguments, '_all'):                  (True, False, False),  # arguments
     (arg, 'arg'):                         (False, _put_one_identifier_required, _onestatic_identifier_required),  # identifier
     (arg, 'annotation'):                  (False, _put_one_arg_annotation, onestatic(_one_info_arg_annotation, _restrict_default)),  # expr?  - exclude [Lambda, Yield, YieldFrom, Await, NamedExpr]?
